@@ -31,35 +31,35 @@ type NodeConf struct {
 	Label     string `json:",omitempty"`
 	SkipLabel bool   `json:",omitempty"`
 
-	Keys       [][]byte `json:",omitempty"` // Keys[0] is the primary
-	NoVerifyIn bool     `json:",omitempty"`
-	NoVerifyOut bool    `json:",omitempty"`
-	NoCompress bool     `json:",omitempty"`
+	Keys        [][]byte `json:",omitempty"` // Keys[0] is the primary
+	NoVerifyIn  bool     `json:",omitempty"`
+	NoVerifyOut bool     `json:",omitempty"`
+	NoCompress  bool     `json:",omitempty"`
 
-	ProbeIntervalMs   int `json:",omitempty"` // 0 = 1000
-	ProbeTimeoutMs    int `json:",omitempty"` // 0 = 500
-	GossipIntervalMs  int `json:",omitempty"` // 0 = 200; <0 disables
-	PushPullMs        int `json:",omitempty"` // 0 = disabled in puppets
-	GossipToDeadMs    int `json:",omitempty"` // 0 = 30000
-	ReclaimMs         int `json:",omitempty"`
-	TCPTimeoutMs      int `json:",omitempty"` // 0 = 10000
-	GossipNodes       int `json:",omitempty"` // 0 = 3
-	IndirectChecks    int // as is
-	RetransmitMult    int `json:",omitempty"` // 0 = 4
-	SuspicionMult     int `json:",omitempty"` // 0 = 4
-	SuspicionMaxMult  int `json:",omitempty"` // 0 = 6
-	AwarenessMax      int `json:",omitempty"` // 0 = 8
-	HandoffDepth      int `json:",omitempty"` // 0 = 1024
-	UDPBufferSize     int `json:",omitempty"` // 0 = 1400
-	DisableTcpPings   bool `json:",omitempty"`
-	CIDRs             []string `json:",omitempty"`
-	Meta              []byte   `json:",omitempty"`
-	NoDelegate        bool     `json:",omitempty"`
-	WithMerge         bool     `json:",omitempty"`
-	WithAlive         bool     `json:",omitempty"`
-	WithPing          bool     `json:",omitempty"`
-	NewTimeFormat     bool     `json:",omitempty"`
-	RequireNodeNames  bool     `json:",omitempty"`
+	ProbeIntervalMs  int      `json:",omitempty"` // 0 = 1000
+	ProbeTimeoutMs   int      `json:",omitempty"` // 0 = 500
+	GossipIntervalMs int      `json:",omitempty"` // 0 = 200; <0 disables
+	PushPullMs       int      `json:",omitempty"` // 0 = disabled in puppets
+	GossipToDeadMs   int      `json:",omitempty"` // 0 = 30000
+	ReclaimMs        int      `json:",omitempty"`
+	TCPTimeoutMs     int      `json:",omitempty"` // 0 = 10000
+	GossipNodes      int      `json:",omitempty"` // 0 = 3
+	IndirectChecks   int      // as is
+	RetransmitMult   int      `json:",omitempty"` // 0 = 4
+	SuspicionMult    int      `json:",omitempty"` // 0 = 4
+	SuspicionMaxMult int      `json:",omitempty"` // 0 = 6
+	AwarenessMax     int      `json:",omitempty"` // 0 = 8
+	HandoffDepth     int      `json:",omitempty"` // 0 = 1024
+	UDPBufferSize    int      `json:",omitempty"` // 0 = 1400
+	DisableTcpPings  bool     `json:",omitempty"`
+	CIDRs            []string `json:",omitempty"`
+	Meta             []byte   `json:",omitempty"`
+	NoDelegate       bool     `json:",omitempty"`
+	WithMerge        bool     `json:",omitempty"`
+	WithAlive        bool     `json:",omitempty"`
+	WithPing         bool     `json:",omitempty"`
+	NewTimeFormat    bool     `json:",omitempty"`
+	RequireNodeNames bool     `json:",omitempty"`
 }
 
 func ms(v, def int) time.Duration {
@@ -187,12 +187,12 @@ type Peer struct {
 
 	mu sync.Mutex
 	// behaviour switches
-	AckPings   bool // answer UDP pings addressed to this peer
-	AckTCP     bool // answer TCP fallback pings
-	Relay      bool // serve indirect ping requests like a healthy relay would
-	ServePP    bool // answer push/pull requests with State
-	State      []wire.PushNodeState
-	UserState  []byte
+	AckPings  bool // answer UDP pings addressed to this peer
+	AckTCP    bool // answer TCP fallback pings
+	Relay     bool // serve indirect ping requests like a healthy relay would
+	ServePP   bool // answer push/pull requests with State
+	State     []wire.PushNodeState
+	UserState []byte
 	// OnLeaf, when set, sees every decoded inbound leaf first; returning true
 	// suppresses the default behaviour for it.
 	OnLeaf func(from string, l wire.Leaf) bool
@@ -237,7 +237,7 @@ type Puppet struct {
 	phase     time.Duration
 	phaseOK   bool
 	phaseScan int
-	Log   *LogBuf
+	Log       *LogBuf
 }
 
 // LogBuf keeps the node's log lines (bounded).
@@ -281,7 +281,7 @@ func NewOn(n *simnet.Network, seed uint64, c NodeConf) (*Puppet, error) {
 
 type obsHandler struct{}
 
-func (*obsHandler) OnPacket(*simnet.Endpoint, string, []byte)       {}
+func (*obsHandler) OnPacket(*simnet.Endpoint, string, []byte)             {}
 func (*obsHandler) OnStream(_ *simnet.Endpoint, _ string, c *simnet.Conn) { c.Close() }
 
 // Addr of the real node.
